@@ -280,6 +280,40 @@ class LevelSystem(_Base):
                    nontrivial=len(lv) >= 2, violations=viol[:3], canon=(tuple(sorted(r._level_to_section)), lv[-1] if lv else 0))
 
 
+class TitleHeaderSystem(_Base):
+    """title_to_header: the front-matter title is an H1 like any other (it opens the level-1 section the later headings nest in)"""
+
+    name = "title-header"
+
+    def __init__(self, tier):
+        super().__init__(tier)
+        self.n = 4 if tier == "quick" else 5
+        self.description = f"front matter 'title:' with title_to_header=True followed by every sequence of <= {self.n} heading levels from H1..H4 (+ marker paragraphs)"
+
+    def bounds(self):
+        return {"length": self.n}
+
+    def rule(self):
+        return "one case = one level sequence after the title; non-trivial = >= 1 heading"
+
+    def cases(self):
+        for n in range(self.n + 1):
+            for lv in itertools.product(range(1, 5), repeat=n):
+                yield list(lv)
+
+    def run(self, lv):
+        d = Doc(self.dir)
+        d.lines += ["---", "title: FT", "---", ""]
+        d.model.heading(1, "FT", 1)
+        d.model.para("PF")
+        d.lines += ["PF text", ""]
+        for l in lv:
+            d.add(f"H{l}p")
+        doc, stream, r = render(d.text(), str(self.dir / "index.md"), MdParserConfig(title_to_header=True))
+        viol = compare(d, doc, stream, r, {"system": "title-header"})
+        return Obs(digest=(tuple(d.model.sections), tuple(d.model.warn_lines)), nontrivial=len(lv) >= 1, violations=viol[:3])
+
+
 MIXED = ["H1", "H2", "H3", "H4", "H6", "P", "Q1", "Q3", "L1", "L2", "N1", "N3", "M2", "T2", "S1", "I0", "I1", "I2", "J1", "J2"]
 
 
@@ -463,4 +497,4 @@ class FixSystem(FixpointSystem, _Base):
 
 
 def systems(tier):
-    return [LevelSystem(tier), MixedSystem(tier), OffsetSystem(tier), ContainerSystem(tier), FixSystem(tier)]
+    return [LevelSystem(tier), TitleHeaderSystem(tier), MixedSystem(tier), OffsetSystem(tier), ContainerSystem(tier), FixSystem(tier)]
